@@ -10,6 +10,29 @@ TRUST = ("z3 5.1.0 (thorough tier cross-checks every decided query with cvc5 1.4
          "semantics of the kernels; the stubs listed in the evidence file")
 
 CHECKS = {
+    "C15": dict(
+        text="The real Output.{get_raw,dump_yaml,load_yaml,dump_tar,load_tar} and ESFResult/EXSResult.{get_raw,from_document} run on "
+             "outputs whose numbers are symbolic tokens, with PyYAML / npz / tarfile / tempfile / pathlib replaced by in-memory "
+             "contracts (YAML = identity on YAML-native data, error otherwise); the structure lattice (SF and XS observables, "
+             "None/0/1/2 points, 1..3 order keys, nf None/int) x format chains (yaml, tar and all two-step cycles) is enumerated "
+             "and every field of the loaded object must be the same token as in the original; the dumped object must be "
+             "unchanged. Failures are replayed with the real libraries on disk.",
+        note="proxy tokens (z3 terms compared structurally), the I/O contracts listed in the evidence (byte-level fidelity of PyYAML "
+             "and NumPy is assumed), Python semantics; cards containing non-YAML types are outside.",
+        technique="bounded symbolic execution of the real (de)serialisation code on symbolic tokens with I/O contracts, exhaustive structure lattice",
+        design="§4 C15",
+    ),
+    "C17": dict(
+        text="The real ESFResult/EXSResult.apply_pdf run on symbolic operator entries (up to five order keys with mixed log and alpha "
+             "powers), symbolic grid nodes, Q2, xiR, xiF and uninterpreted PDF/alpha_s/alpha; z3 proves result and error equal to "
+             "the documented contraction, that the PDF is evaluated only at muF^2 = xiF^2 Q2 and never for flavours it lacks, and "
+             "that composite PDFs a f + b g go through the same (linear) formula. Output.apply_pdf_theory runs with eko replaced "
+             "by recorders for every scheme: alpha_s(muR^2) with nf_to = NfFF (fixed-flavour) or the flavours active at muR "
+             "(ZM-VFNS), built from the card's couplings/order/method/masses/(m k)^2 scales, times 4 pi.",
+        note=TRUST + "; eko's running coupling itself is outside; the Output-level wiring part is a concrete recorder run per scheme.",
+        technique="symbolic execution of apply_pdf with uninterpreted PDF/couplings (z3 QF_UFNRA equality) + recorder run of the coupling wiring",
+        design="§4 C17",
+    ),
     "C14": dict(
         text="(1) The real StructureFunction.get_esf runs after a symbolic history of up to two earlier requests (symbolic kinematic "
              "values, BOTH key orders of the kinematics dict, both use_raw flags, TMC on/off); tuple-key equality inside the dict "
